@@ -1734,3 +1734,108 @@ Proof.
   rewrite (RdE.parse_cfi_entry_cie dbg' cfg cr pos rest (rd_aug_of c) Hwfc Hbf' Haug).
   do 3 f_equal. rewrite Hsp, <- Hbs. reflexivity.
 Qed.
+
+(* ---- one FDE tile: the iterator step and the complete parse ---- *)
+
+Lemma enc_usable_ok e : enc_usable e -> RdE.enc_ok e = true.
+Proof.
+  intros H. destruct (enc_usable_valid e H) as [Hv Hn]. unfold RdE.enc_ok.
+  apply andb_true_iff in Hv. destruct Hv as [H1 H2]. rewrite H1, H2. cbn [andb].
+  destruct (e =? 255) eqn:E; [lia|reflexivity].
+Qed.
+
+(* the LSDA the reader must report *)
+Definition rd_lsda_of (c : CfiWr.cie) (f : CfiWr.fde) : option CfiRd.pointer :=
+  match f_lsda f, c_lsda_enc c with
+  | Some a, Some e => Some (RdP.mkptr (negb (N.land e 128 =? 0)) (addr_val a mod 2 ^ (8 * c_asize c)))
+  | _, _ => None
+  end.
+
+Lemma exp_fde_written be eh pos (c : CfiWr.cie) (f : CfiWr.fde) d ci0 idx instr (ci : CfiRd.cie) len0 :
+  let cfg := rd_cfg eh be (c_asize c) in
+  let cr := cie_rec_of c d ci0 in
+  let fr := fde_rec_of be eh pos c f idx instr in
+  (c_asize c = 1 \/ c_asize c = 2 \/ c_asize c = 4 \/ c_asize c = 8) ->
+  fde_lsda_pos be eh pos c f + 2 < 18446744073709551616 ->
+  lsda_ok c f = true ->
+  (negb (c_fde_enc c =? 0) = true ->
+     enc_usable (c_fde_enc c) /\
+     CfiSpec.value_fits (CfiWr.pe_format (c_fde_enc c)) (c_asize c) (fde_init_raw eh pos c f) = true /\
+     CfiSpec.value_fits (CfiWr.pe_format (c_fde_enc c)) (c_asize c) (f_len f) = true) ->
+  (negb (c_fde_enc c =? 0) = false ->
+     fde_init_raw eh pos c f < 2 ^ (8 * c_asize c) /\ f_len f < 2 ^ (8 * c_asize c)) ->
+  (forall e, c_lsda_enc c = Some e ->
+     enc_usable e /\ CfiSpec.value_fits (CfiWr.pe_format e) (c_asize c) (fde_lsda_raw be eh pos c f) = true /\
+     (length (CfiSpec.enc_value (CfiWr.pe_format e) (c_asize c) be (fde_lsda_raw be eh pos c f)) <= 10)%nat) ->
+  (exists v, f_addr f = AConst v /\ v < 18446744073709551616) ->
+  (forall la, f_lsda f = Some la -> exists v, la = AConst v /\ v < 18446744073709551616) ->
+  exists ioff,
+    RdE.exp_fde cfg cr ci fr pos len0 (fde_addr_pos eh pos c)
+    = Some (CfiRd.mkfde pos len0 (c_fmt64 c) ci (addr_val (f_addr f) mod 2 ^ (8 * c_asize c)) (f_len f)
+                        (if has_augmentation c then Some (rd_lsda_of c f) else None)
+                        (CfiRd.mkrd ioff instr)).
+Proof.
+  intros cfg cr fr Hasz Hpos Hls Hfenc Hnofenc Hlenc (va & Hva & Hva64) Hlconst.
+  unfold RdE.exp_fde. cbv zeta.
+  assert (Hsp : RdE.sp_of cfg = cie_sp eh be c) by reflexivity.
+  unfold cr. rewrite Hsp, cie_asz_sp, has_aug_items. change (CfiRd.sc_be cfg) with be.
+  change (CfiRd.sc_bases cfg) with (CfiRd.mksb (Some 0) None None).
+  cbn [cie_rec_of CfiSpec.c_items]. rewrite find_R_items, find_L_items.
+  unfold fr. cbn [fde_rec_of CfiSpec.f_init CfiSpec.f_range CfiSpec.f_lsda CfiSpec.f_pad CfiSpec.f_instr CfiSpec.f_fmt64].
+  unfold RdE.sb_pb. cbn [CfiRd.sb_section CfiRd.sb_text CfiRd.sb_data].
+  rewrite Hva. cbn [addr_val].
+  (* the address *)
+  assert (Haddr :
+    (match (if negb (c_fde_enc c =? 0) then Some (c_fde_enc c) else None) with
+     | Some e =>
+         if RdE.enc_ok e && CfiSpec.value_fits (CfiSpec.fmt_of e) (c_asize c) (fde_init_raw eh pos c f)
+            && CfiSpec.value_fits (CfiSpec.fmt_of e) (c_asize c) (f_len f)
+         then match CfiSpec.ptr_spec e (c_asize c) (CfiSpec.mkpb (Some 0) None None None) (fde_addr_pos eh pos c)
+                      (fde_init_raw eh pos c f) with
+              | Some (_, a) => Some a | None => None end
+         else None
+     | None => if (fde_init_raw eh pos c f <? 2 ^ (8 * c_asize c)) && (f_len f <? 2 ^ (8 * c_asize c))
+               then Some (fde_init_raw eh pos c f) else None
+     end) = Some (va mod 2 ^ (8 * c_asize c))).
+  { destruct (negb (c_fde_enc c =? 0)) eqn:Ef.
+    - destruct (Hfenc eq_refl) as (Hu & Hf1 & Hf2).
+      rewrite (enc_usable_ok _ Hu), fmt_of_pe, Hf1, Hf2. cbn [andb].
+      unfold fde_init_raw. rewrite Ef, Hva. cbn [addr_val].
+      destruct Hu as (He & Happ & _).
+      rewrite (ptr_spec_written _ (c_asize c) _ va None He Hasz Happ Hva64) by (unfold fde_lsda_pos in Hpos; lia).
+      reflexivity.
+    - destruct (Hnofenc eq_refl) as (H1 & H2).
+      replace (fde_init_raw eh pos c f <? 2 ^ (8 * c_asize c)) with true by lia.
+      replace (f_len f <? 2 ^ (8 * c_asize c)) with true by lia. cbn [andb].
+      unfold fde_init_raw in *. rewrite Ef, Hva in *. cbn [addr_val] in *. rewrite N.mod_small by exact H1. reflexivity. }
+  rewrite Haddr.
+  destruct (has_augmentation c) eqn:Ea.
+  - unfold lsda_ok in Hls. apply (proj1 (bool_eqb_iff _ _)) in Hls.
+    destruct (c_lsda_enc c) as [le|] eqn:Ecl.
+    + destruct (f_lsda f) as [la|] eqn:Efl; [|discriminate].
+      destruct (Hlconst la eq_refl) as (vl & -> & Hvl64).
+      destruct (Hlenc le eq_refl) as (Hu & Hfit & Hlen10).
+      rewrite app_nil_r, fmt_of_pe.
+      assert (Hsm : CfiSpec.blen (CfiSpec.enc_value (CfiWr.pe_format le) (c_asize c) be (fde_lsda_raw be eh pos c f)) < 128)
+        by (unfold CfiSpec.blen; lia).
+      replace (CfiSpec.blen _ <? 2 ^ 64) with true by (change (2 ^ 64) with 18446744073709551616; lia).
+      rewrite (enc_usable_ok _ Hu), Hfit. cbn [andb].
+      rewrite enc_uleb_small by exact Hsm.
+      assert (Hp3 : fde_addr_pos eh pos c
+                    + CfiRd.nlen (CfiSpec.enc_value (match (if negb (c_fde_enc c =? 0) then Some (c_fde_enc c) else None) with
+                                                     | Some e => CfiSpec.fmt_of e | None => 0 end) (c_asize c) be (fde_init_raw eh pos c f))
+                    + CfiRd.nlen (CfiSpec.enc_value (match (if negb (c_fde_enc c =? 0) then Some (c_fde_enc c) else None) with
+                                                     | Some e => CfiSpec.fmt_of e | None => 0 end) (c_asize c) be (f_len f))
+                    + CfiRd.nlen [n2b (CfiSpec.blen (CfiSpec.enc_value (CfiWr.pe_format le) (c_asize c) be (fde_lsda_raw be eh pos c f)))]
+                    = fde_lsda_pos be eh pos c f).
+      { unfold fde_lsda_pos, fde_afmt. destruct (negb (c_fde_enc c =? 0)); rewrite ?fmt_of_pe; reflexivity. }
+      rewrite Hp3.
+      unfold fde_lsda_raw. rewrite Efl, Ecl. cbn [addr_val].
+      destruct Hu as (He & Happ & _).
+      rewrite (ptr_spec_written le (c_asize c) _ vl (Some (va mod 2 ^ (8 * c_asize c))) He Hasz Happ Hvl64) by lia.
+      eexists. unfold rd_lsda_of. rewrite Efl, Ecl. cbn [addr_val]. reflexivity.
+    + destruct (f_lsda f) as [la|] eqn:Efl; [discriminate|].
+      cbn [app]. replace (CfiSpec.blen [] <? 2 ^ 64) with true by reflexivity.
+      eexists. unfold rd_lsda_of. rewrite Efl. reflexivity.
+  - eexists. reflexivity.
+Qed.
